@@ -298,6 +298,9 @@ def gen_case(rng, rtype, vtype, sk, idx):
                 else:
                     tgt.append(rand_centre(m))
             c["target"] = tgt
+            # does a periodic centre leave its wrapping interval on the way?
+            c["cross"] = any(m.get("period") and math.floor((a + 0.5 * m["period"]) / m["period"]) != math.floor((b_ + 0.5 * m["period"]) / m["period"])
+                             for m, a, b_ in zip(cvs, cen, tgt))
             b += " targetCenters %s\n" % " ".join(fmt_val(m["vtype"], x) for m, x in zip(cvs, tgt))
             c["opts"].add("targetCenters")
     if rtype == "harmonicWalls":
@@ -703,12 +706,12 @@ def compare(c, seg, res, ref_one, cobj):
     best = None
     for dl in deltas:
         mod, sch = model_run(c, xs, dl)
-        errs, nok = compare_steps(c, seg, obs, mod, res)
+        errs, nok, complete = compare_steps(c, seg, obs, mod, res)
         if best is None or nok > best[4]:
-            best = (errs, dl, mod, sch, nok)
-    errs, dl, mod, sch, nok = best
+            best = (errs, dl, mod, sch, nok, complete)
+    errs, dl, mod, sch, nok, complete = best
     bad += errs
-    info = dict(delta=dl, obs=obs, ti=ti)
+    info = dict(delta=dl, obs=obs, ti=ti, complete=complete)
     # 3. segmentation-blind internal counters: equal to those of the single run at the same step
     if not bad:
         if ref_one is not None:
@@ -728,10 +731,13 @@ def compare(c, seg, res, ref_one, cobj):
                     bad.append(("firstStep", "step %d: firstStep %s, restraint defined at step %d" % (o["it"], (o["state"] or {}).get("firstStep"), first)))
                     break
     # 4. TI output of staged force-constant schedules (first disagreeing line only)
-    if c["kind"] == "staged" and c["sched"] != "centres_staged" and not bad:
+    if c["kind"] == "staged" and c["sched"] != "centres_staged" and complete:
         exp = ti_expect(c, mod, sch)
+        nbad0 = len(bad)
         for j, (line, ex) in enumerate(zip(ti, exp)):
-            cls = "first_stage" if j == 0 else "later_stage"
+            if len(bad) > nbad0:
+                continue        # one TI disagreement per history: later lines of a resumed stage are consequences
+            cls = ("first_stage_equil0" if c["equil"] == 0 else "first_stage") if j == 0 else "later_stage"
             l1 = ref_one["ti"][j] if (ref_one is not None and j < len(ref_one["ti"])) else None
             if not (ex["hi"] - 1 <= line["it"] <= ex["hi"] + 1):
                 bad.append(("ti_stamp", "line %d printed at step %d, stage %d ends at step %d" % (j, line["it"], j, ex["hi"])))
@@ -747,9 +753,7 @@ def compare(c, seg, res, ref_one, cobj):
                                ["%d..%d: %.6g" % (w[0], w[0] + c["N"] - c["equil"] - 1, w[1]) for w in ex["windows"]])))
             elif l1 is not None and not close(l1["val"], line["val"], 2.5 * PRINT_TOL * max(abs(l1["val"]), abs(line["val"])) + 1e-300):
                 bad.append(("ti_value_segmentation_" + cls, "stage %d: dA/dLambda= %.6g, in the single run %.6g" % (j, line["val"], l1["val"])))
-            if bad:
-                break
-        if not bad and len(ti) != len(exp):
+        if len(bad) == nbad0 and len(ti) != len(exp):
             bad.append(("ti_count", "%d dA/dLambda lines printed at steps %s, %d stages completed in the history"
                         % (len(ti), [x["it"] for x in ti], len(exp))))
         cobj.bump("ti_lines_compared", min(len(ti), len(exp)))
@@ -759,7 +763,7 @@ def compare(c, seg, res, ref_one, cobj):
 
 
 def compare_steps(c, seg, obs, mod, res):
-    """returns (disagreements, number of step evaluations that agreed before the first one)"""
+    """returns (disagreements, number of step evaluations that agreed, history compared to its end)"""
     cvs = c["cvs"]
     rst = seg == "restart"
     rt = RTOL_STATE if rst else RTOL
@@ -777,13 +781,15 @@ def compare_steps(c, seg, obs, mod, res):
         rep = " (repeated first step of a run)" if o["cont"] or (o["rel"] == 0 and t != c["first"]) else ""
         if c["rtype"] == "histogramRestraint":
             if not close(o["e"], m["E"], m["tolE"]):
-                # is it the documented functional up to a constant factor?
+                # is it the documented functional up to a constant factor?  (reported once; the rest of the
+                # history is then compared with that factor)
                 alt = 0.5 * c["k0"] * m["M"] * m["sumsq"]
-                if close(o["e"], alt, 1e-11 * abs(alt) + 1e-13 * abs(c["k0"])):
-                    return [("energy_normalisation", "step %d: energy %.15g = (k/2) * M * sum_bins (h-h0)^2 with M=%d values and no bin width; "
-                             "documented (k/2) * Integral (h-h0)^2 dxi = %.15g on the grid of h0 (ratio %.6g = M/width, width %g)"
-                             % (t, o["e"], m["M"], m["E"], o["e"] / m["E"] if m["E"] else float("nan"), c["h"]["width"]))], nok
-                return [("energy", "step %d: energy %.17g, documented form %.17g" % (t, o["e"], m["E"]))], nok
+                if not close(o["e"], alt, 1e-11 * abs(alt) + 1e-13 * abs(c["k0"])):
+                    return bad + [("energy", "step %d: energy %.17g, documented form %.17g" % (t, o["e"], m["E"]))], nok, False
+                if not bad:
+                    bad.append(("energy_normalisation", "step %d: energy %.15g = (k/2) * M * sum_bins (h-h0)^2 with M=%d values and no bin width; "
+                                "documented (k/2) * Integral (h-h0)^2 dxi = %.15g on the grid of h0 (ratio %.6g = M/width, width %g)"
+                                % (t, o["e"], m["M"], m["E"], o["e"] / m["E"] if m["E"] else float("nan"), c["h"]["width"])))
             nok += 1
             continue
         if c["rtype"] == "abmd":
@@ -791,7 +797,7 @@ def compare_steps(c, seg, obs, mod, res):
             if "refValue" not in st or not close(st["refValue"], m["ref"], rt * max(1.0, abs(m["ref"]))):
                 beyond = "refValue" in st and (st["refValue"] - c["stop"]) * (-1.0 if c["decreasing"] else 1.0) > 0
                 if not beyond:
-                    return [("abmd_reference", "step %d%s: refValue %s, min(max, stop) gives %.15g" % (t, rep, st.get("refValue"), m["ref"]))], nok
+                    return [("abmd_reference", "step %d%s: refValue %s, min(max, stop) gives %.15g" % (t, rep, st.get("refValue"), m["ref"]))], nok, False
                 if not abmd_ref_reported:
                     abmd_ref_reported = True
                     bad.append(("abmd_reference_beyond_stop", "step %d%s: value %.15g, refValue %.15g is beyond stoppingValue %.15g; "
@@ -801,15 +807,15 @@ def compare_steps(c, seg, obs, mod, res):
                 sg = -1.0 if c["decreasing"] else 1.0
                 E = 0.5 * c["k0"] * (y - r) ** 2 if (y - r) * sg < 0 else 0.0
             if not close(o["e"], E, RTOL * abs(E) + 1e-13 * abs(c["k0"])):
-                return bad + [("energy", "step %d%s: energy %.17g, half-harmonic about the reference %.17g" % (t, rep, o["e"], E))], nok
+                return bad + [("energy", "step %d%s: energy %.17g, half-harmonic about the reference %.17g" % (t, rep, o["e"], E))], nok, False
             nok += 1
             continue
         if c["kind"] != "fixed" and st.get("firstStep") != c["first"]:
-            return [("firstStep", "step %d%s: firstStep %s in the state, restraint defined at step %d" % (t, rep, st.get("firstStep"), c["first"]))], nok
+            return [("firstStep", "step %d%s: firstStep %s in the state, restraint defined at step %d" % (t, rep, st.get("firstStep"), c["first"]))], nok, False
         if kchg:
             if "forceConstant" not in st or not close(st["forceConstant"], m["k"], rt * max(abs(m["k"]), 1e-3 * abs(c["k0"]) + 1e-3 * abs(c["k1"]))):
                 return [("force_constant", "step %d%s: forceConstant %s in the state, schedule gives %.15g (lambda=%g, stage %d)"
-                         % (t, rep, st.get("forceConstant"), m["k"], m["lam"], m["stage"]))], nok
+                         % (t, rep, st.get("forceConstant"), m["k"], m["lam"], m["stage"]))], nok, False
         if c["sched"].startswith("centres"):
             cc = st.get("centers")
             flat = []
@@ -820,18 +826,18 @@ def compare_steps(c, seg, obs, mod, res):
                 per += [mt.get("period", 0.0)] * mt["dim"]
             if cc is None or len(cc) != len(flat) or any(abs(rm.sdiff(a, b_, p)) > rt * max(1.0, abs(b_), p) for a, b_, p in zip(cc, flat, per)):
                 return [("centre", "step %d%s: centers %s in the state, schedule gives %s (lambda=%g, stage %d)"
-                         % (t, rep, cc, flat, m["lam"], m["stage"]))], nok
+                         % (t, rep, cc, flat, m["lam"], m["stage"]))], nok, False
         if not close(o["e"], m["E"], m["tolE"]):
             return [("energy", "step %d%s: energy %.17g, closed form %.17g (k=%.17g, lambda=%g, tolerance %.3g)"
-                     % (t, rep, o["e"], m["E"], m["k"], m["lam"], m["tolE"]))], nok
+                     % (t, rep, o["e"], m["E"], m["k"], m["lam"], m["tolE"]))], nok, False
         if c.get("out_work"):
             tolw = rt * max(m["Wabs"], 1e-6) + 1e-13
             if "accumulatedWork" not in st or not close(st["accumulatedWork"], m["W"], tolw):
                 return [("work", "step %d%s: accumulatedWork %s, sum over steps gives %.15g (sum of |terms| %.3g)"
-                         % (t, rep, st.get("accumulatedWork"), m["W"], m["Wabs"]))], nok
+                         % (t, rep, st.get("accumulatedWork"), m["W"], m["Wabs"]))], nok, False
         nok += 1
     if bad:
-        return bad, nok
+        return bad, nok, True
     # trajectory columns (only when the state and the energies agreed: otherwise they repeat the same finding)
     nrows = 0
     for path in res["traj"]:
@@ -841,25 +847,25 @@ def compare_steps(c, seg, obs, mod, res):
             m = mod[step]
             nrows += 1
             if row.get("_bad"):
-                return [("traj_format", "step %d: trajectory row does not match its header" % step)], nok
+                return [("traj_format", "step %d: trajectory row does not match its header" % step)], nok, False
             if c.get("out_centers") and c["rtype"] in ("harmonic", "linear"):
                 for ci, mt in zip(m["centers"], cvs):
                     got = row.get("x0_" + mt["name"])
                     wantv = ci if mt["dim"] > 1 else [ci]
                     if got is None or len(got) != len(wantv) or any(
                             abs(rm.sdiff(a, b_, mt.get("period", 0.0))) > RTOL_STATE * max(1.0, abs(b_), mt.get("period", 0.0)) for a, b_ in zip(got, wantv)):
-                        return [("traj_centre", "step %d: x0_%s %s, schedule gives %s" % (step, mt["name"], got, wantv))], nok
+                        return [("traj_centre", "step %d: x0_%s %s, schedule gives %s" % (step, mt["name"], got, wantv))], nok, False
             if c.get("out_work"):
                 got = row.get("W_" + BIAS)
                 tolw = rt * max(m["Wabs"], 1e-6) + 1e-13 + 1e-14 * abs(m["W"])
                 if got is None or not close(got[0], m["W"], tolw):
-                    return [("traj_work", "step %d: W_ %s, sum over steps gives %.15g" % (step, got, m["W"]))], nok
+                    return [("traj_work", "step %d: W_ %s, sum over steps gives %.15g" % (step, got, m["W"]))], nok, False
             got = row.get("E_" + BIAS)
             if got is not None and c["rtype"] not in ("histogramRestraint", "abmd") and not close(got[0], m["E"], m["tolE"] + 1e-14 * abs(m["E"])):
-                return [("traj_energy", "step %d: E_ %s, closed form %.15g" % (step, got, m["E"]))], nok
+                return [("traj_energy", "step %d: E_ %s, closed form %.15g" % (step, got, m["E"]))], nok, False
     if (c.get("out_centers") or c.get("out_work")) and nrows == 0:
-        return [("traj_missing", "no trajectory rows found")], nok
-    return [], nok
+        return [("traj_missing", "no trajectory rows found")], nok, False
+    return [], nok, True
 
 
 # ---- driver ---------------------------------------------------------------------------------------
@@ -867,9 +873,9 @@ def compare_steps(c, seg, obs, mod, res):
 def run(tier, replay):
     c = common.Check("C06", tier)
     c.use_flavour("plain")
-    c.rule = ("distinct = (restraint type, value type, schedule kind, segmentation) for which one complete history was "
-              "compared step by step (energy, centres/force constant/work/stage in the state, trajectory columns, TI lines) "
-              "and agreed with the model")
+    c.rule = ("distinct = (restraint type, value type, schedule kind, segmentation) for which one history was compared with "
+              "the model step by step to its end (energy, centres/force constant/work/stage in the state, trajectory columns, "
+              "TI lines); a comparison that stops at a disagreement does not count")
     c.assumptions = [
         "variable values are taken as reported by the library (C02 checks them); they are imposed through atom positions",
         "staged schedules: the manual fixes the length of a stage (targetNumSteps) and the total length N*(stages+1), not the "
@@ -892,6 +898,20 @@ def run(tier, replay):
             continue
         for _ in range(reps):
             cases.append(gen_case(c.rng, rtype, vtype, sk, len(cases)))
+    # every split point of one short staged schedule of each kind (and of one continuous one)
+    nsplit = 0
+    for want in (("harmonic", "scalar", "k_staged"), ("harmonic", "scalar", "centres_staged"), ("harmonic", "scalar", "k_cont")):
+        base = [cs for cs in cases if (cs["rtype"], cs["vtype"], cs["sched"]) == want]
+        if not base:
+            continue
+        for K in range(base[0]["first"] + 1, base[0]["first"] + base[0]["T"]):
+            cl = dict(base[0])
+            cl["idx"] = len(cases)
+            cl["splits_newrun"] = [K]
+            cl["splits_restart"] = [K]
+            cases.append(cl)
+            nsplit += 1
+    c.extra["cases_with_exhaustive_split_points"] = nsplit
     segs = ("one", "newrun", "restart")
     jobs = [(cs, sg) for cs in cases for sg in segs]
 
@@ -914,7 +934,7 @@ def run(tier, replay):
         for sg in segs:
             res = byjob[(cs["idx"], sg)]
             c.count()
-            key0 = "%s:%%s:%s" % (combo, sg)
+            key0 = "%s:%s%s:%s:%%s:%s" % (cs["rtype"], cs["vtype"], "+centre_crosses_period_boundary" if cs.get("cross") else "", cs["sched"], sg)
             payload = dict(config=cs["cfg"], first=cs["first"], T=cs["T"], N=cs["N"], stages=cs["nst"], equil=cs["equil"],
                            exponent=cs["alpha"], lambdas=cs["lambdas"], splits=cs.get("splits_" + sg))
             if not res["ok"]:
@@ -955,7 +975,8 @@ def run(tier, replay):
                     vkeys.add(k)
                     c.violation(k, "%s [first step %d, %d steps, N=%d, stages=%d, splits %s] %s"
                                 % (combo, cs["first"], cs["T"], cs["N"], cs["nst"], cs.get("splits_" + sg), text), res["sp"], payload)
-                continue
+            if not (info and info.get("complete")):
+                continue          # the comparison stopped at the first disagreement: not a fully compared history
             c.nontrivial("%s|%s" % (combo, sg))
             rtypes_seen.add(cs["rtype"])
             opts_seen |= cs["opts"]
